@@ -4,13 +4,15 @@ import os
 from vt import core
 from vt.main import decide
 from props import c13_common as cm
-from translate import load_tr
+from translate import load_tr, proc_tr
 
-IMPORTS = """From TxV Require Import Core.Base Core.Show Model.Proc Gen.SrcLoad.
+IMPORTS = """From TxV Require Import Core.Base Core.Show Model.Proc Gen.SrcLoad Gen.SrcProc.
 Open Scope string_scope.
 Definition show_lev (e : lev) : string :=
   match e with LResolve _ => "R" | LInit _ => "I" | LProc _ => "P" | LRaise => "X" end.
-Definition show_trace (u : bool) : string := sjoin "" (map show_lev (run_phases load_phases [0%nat; 1%nat] u))."""
+Definition show_trace (u : bool) : string := sjoin "" (map show_lev (run_phases load_phases [0%nat; 1%nat; 2%nat; 3%nat] u))."""
+
+FALSY = {"i:0", "s:", "b:False", "f:0.0"}     # canonical atom texts of falsy Python values
 
 CORPUS = os.path.join(core.VERIF, "corpus", "C13")
 
@@ -52,12 +54,19 @@ def coq_case(case, o):
         act = "AChild" if kind == "child" else "(AAtom %d)" % T.atom("i:%d" % (k if kind == "atom" else 0))
         tbl.append("(%d, %d, %s)" % (idx[p], i, act))
     ms = core.coq_list(["(%s, %s)" % t for t in trees])
-    return "%srun_models %s %s %s" % (T.lets(), regl, core.coq_list(tbl), ms), T
+    # Python-falsy values among the atoms of this case (only consulted when a translated fact is a truthiness test)
+    falsy = core.coq_list(["%d" % i for a, i in sorted(T.atoms.items(), key=lambda x: x[1]) if a in FALSY])
+    mreg = [(idx[n], suf) for n, suf in sorted(case.get("match_reg", {}).items()) if n in idx]
+    mexpr = "run_match %s %s %s" % (core.coq_list(["%d" % i for i, _ in mreg]),
+                                    core.coq_list(["(%d, %s)" % (i, core.coq_str(suf)) for i, suf in mreg]),
+                                    core.coq_list([cm.coq_ptree(t) for t in o.get("forest", [])]))
+    return "%sString.append (run_models src_facts %s %s %s %s) (String.append \"%%\" (%s))" % (T.lets(), regl, falsy, core.coq_list(tbl), ms, mexpr), T
 
 
 def impl_string(o, T):
     procs = [e for e in o["events"] if e["k"] == "proc"]
-    return T.recode("|".join("%d(%s)" % (e["p"], e["snap"]) for e in procs) + "$" + "$".join(m["final"] for m in o["models"]))
+    return T.recode("|".join("%d(%s)" % (e["p"], e["snap"]) for e in procs) + "$" + "$".join(m["final"] for m in o["models"])) + "%" + \
+        "|".join("%d(%s)" % (e["p"], core.canon_text(e["v"])) for e in o["events"] if e["k"] == "match")
 
 
 def classify(case, o):
@@ -65,7 +74,7 @@ def classify(case, o):
 
 
 def run(chk):
-    chk.prove([load_tr.translate])
+    chk.prove([load_tr.translate, proc_tr.translate])
     n = 600 if chk.thorough else 100
     cases = load_corpus()
     for i in range(n):
@@ -105,9 +114,11 @@ def run(chk):
         if "init" in kinds:
             chk.stat("with user classes")
         if c.get("files"):
-            chk.stat("two models under construction (importURI)")
+            chk.stat("import graph %s (%d models under construction)" % (c.get("shape") or "pair", len(c["files"]) + 1))
         if "resolve" in kinds:
             chk.stat("with references")
+        nm = kinds.count("match")
+        chk.stat("match-rule processor calls %s" % ("0" if nm == 0 else "1-4" if nm <= 4 else "5+"))
         if any(e["id"] == 0 for e in procs):
             chk.stat("abstract-rule processor on a primitive value")
         # correspondence with the translated phase order: the blocks of events the load produced
@@ -142,7 +153,8 @@ def run(chk):
                        "registration set (all / subset / none of the rules incl. abstract and OBJECT), replacement actions (atom, falsy 0, return "
                        "first child) per (processor, object), user classes on a subset of rules, plus unresolved-reference models; loaded through "
                        "metamodel_from_file/model_from_str; non-trivial = at least 3 processor calls; distinct by (grammar, model, registration, actions, user classes)")
-    chk.assumptions += ["object processors only observe their argument and return a value (no side effects on the model) - the harness processors do exactly that",
+    chk.assumptions += ["translator proc_tr.py: statement-by-statement match of call_obj_processors; the facts it extracts instantiate the model",
+                        "object processors only observe their argument and return a value (no side effects on the model) - the harness processors do exactly that",
                         "object identity is represented by ids assigned in containment pre-order before reference resolution",
                         "the linked tree and attribute metadata given to the Coq model are read from the live metamodel/model at the first processor call"]
     decide(chk, failures, disagreements)
